@@ -291,6 +291,9 @@ type Evidence struct {
 }
 
 func (c *Ctx) WriteEvidence(level string, coverage map[string]any, assumptions []string, violations int) {
+	if os.Getenv("VERIF_NO_EVIDENCE") != "" {
+		return // selftest child runs must not overwrite the evidence of real runs
+	}
 	ev := Evidence{
 		PropertyID: c.Prop, Tier: c.Tier, Seed: int64(c.Seed & 0x7fffffffffffffff), Level: level, Coverage: coverage,
 		Assumptions: assumptions, WallS: time.Since(c.Start).Seconds(), Violations: violations,
